@@ -268,7 +268,7 @@ verif_harness! {
     stubs: [(crate::big_soft::backends::transform, stub_transform), (crate::big_soft::backends::sub_bytes, stub_sub_bytes)],
     prop: |inp| { k::w_roundtrip_rk(inp, 0, true) }
 }
-//@ harness name=kuz_soft_rt_ed prop=C01,C20 tier=thorough bits=1408 stub=1 est=245 need=6 desc="W: Kuznyechik::from(&enc): dec(enc(b)) == b, arbitrary round keys, all blocks (S, L uninterpreted inverse pairs, linearity instances of L^-1 assumed)"
+//@ harness name=kuz_soft_rt_ed prop=C01,C20 tier=quick bits=1408 stub=1 est=245 need=6 desc="W: Kuznyechik::from(&enc): dec(enc(b)) == b, arbitrary round keys, all blocks (S, L uninterpreted inverse pairs, linearity instances of L^-1 assumed)"
 verif_harness! {
     name: kuz_soft_rt_ed,
     bytes: 160 + 16,
